@@ -166,8 +166,11 @@ def identity_diff(a, b):
 
 
 def bad_ref_names(model):
-    return sorted("%s.%s" % (p, n) for p, s in W.all_spaces(model) for n in s._own_refs if not valid_name(n)) + \
-        sorted(n for n in model.refs if not n.startswith("__") and not valid_name(n))
+    return sorted("%s.%s" % (p, n) for p, s in W.all_spaces(model) for n in s._own_refs if not valid_name(n))
+
+
+def bad_model_ref_names(model):
+    return sorted(n for n in model.refs if not n.startswith("__") and not valid_name(n))
 
 
 # ----------------------------------------------------------------------------- dispatch for the mechanism model
